@@ -382,7 +382,7 @@ pub fn run_gent_check(ctx: &Ctx, id: &str) -> i32 {
     let journal = work_dir().join(format!("journal-{}.json", id));
     let mut skip: u64 = 0;
     let mut carry = serde_json::json!({"evaluations": 0u64, "distinct_nontrivial": 0u64, "known": {}, "classes": {}});
-    for _restart in 0..40 {
+    for _restart in 0..200 {
         let _ = std::fs::remove_file(&journal);
         let mut cmd = Command::new(&p.gent);
         cmd.arg(id).arg("--tier").arg(ctx.tier.name());
@@ -415,12 +415,15 @@ pub fn run_gent_check(ctx: &Ctx, id: &str) -> i32 {
         let alloc_failure = stderr.contains("memory allocation of");
         if is_async && alloc_failure && ctx.findings.is_open("C09", "async-count-prealloc") {
             // known finding: async generated decoders allocate the wire count up front
-            let n = carry["known"]["async-count-prealloc"].as_u64().unwrap_or(0) + 1;
-            carry["known"]["async-count-prealloc"] = serde_json::json!(n);
-            let c = carry["classes"]["worker restarted behind a known-finding death"].as_u64().unwrap_or(0) + 1;
-            carry["classes"]["worker restarted behind a known-finding death"] = serde_json::json!(c);
-            carry["evaluations"] = serde_json::json!(carry["evaluations"].as_u64().unwrap_or(0) + j["evaluations"].as_u64().unwrap_or(0));
-            carry["distinct_nontrivial"] = serde_json::json!(carry["distinct_nontrivial"].as_u64().unwrap_or(0) + j["distinct_nontrivial"].as_u64().unwrap_or(0));
+            // the finding is C09's: only C09 prints it as KNOWN-FINDING, the other checks count
+            // the death as a restart (the restarted worker records the cases it skips again, so
+            // evaluation counts are not carried)
+            if id == "C09" {
+                let n = carry["known"]["async-count-prealloc"].as_u64().unwrap_or(0) + 1;
+                carry["known"]["async-count-prealloc"] = serde_json::json!(n);
+            }
+            let c = carry["classes"]["worker restarted behind a death of known finding async-count-prealloc (C09)"].as_u64().unwrap_or(0) + 1;
+            carry["classes"]["worker restarted behind a death of known finding async-count-prealloc (C09)"] = serde_json::json!(c);
             skip = j["index"].as_u64().unwrap_or(skip + 1);
             continue;
         }
@@ -443,7 +446,7 @@ pub fn run_gent_check(ctx: &Ctx, id: &str) -> i32 {
         let code = rec.borrow().finish(&ctx.findings);
         return code;
     }
-    eprintln!("INFRA: generated-code binary was restarted 40 times");
+    eprintln!("INFRA: generated-code binary was restarted 200 times");
     2
 }
 
